@@ -24,8 +24,8 @@ func init() {
 			"oracle at the end state: no goroutine with a library frame (or created by the library) is alive after max(cooldown)+3000 heartbeats (the leaked stack is the witness). non-trivial = at least one close/cancel raced an in-flight operation; distinct = distinct (component set, close order, context kinds) signatures",
 		Assumptions: []string{"leaked registrations that hold no goroutine (e.g. AfterFunc entries) are invisible to this oracle; the statement speaks of goroutines", "the harness keeps the provisos: it commits or rolls back before closing a consumer and never leaves a Get blocked on a consumer it closes directly"},
 		Families: []core.Family{
-			{Name: "programs", N: core.TierN(600, 8000), Batch: 15, Run: c12Program},
-			{Name: "close-semantics", N: core.TierN(400, 4000), Batch: 20, Run: c12CloseSemantics},
+			{Name: "programs", N: core.TierN(600, 32000), Batch: 15, Run: c12Program},
+			{Name: "close-semantics", N: core.TierN(400, 16000), Batch: 20, Run: c12CloseSemantics},
 		},
 	})
 }
